@@ -1429,3 +1429,10 @@ PROPS["C18"]["level_note"] += (' The ground-truth RULE is no longer trusted OCam
     'the hypothesis `explained` of the theorems, not proved about the Rust harness.')
 PROPS["C18"]["level_note"] += (' That hypothesis is evaluated (extracted `explained`) on the crate transcript of every clean checked case; a violation '
     'would be counted as truth:window-not-explained (absent from the distribution = never violated).')
+#  C02 "once reached, this agreement is stable (no station is dropped or skipped again while the population is unchanged)":
+#      at the level of one station a member of the ring view is only ever dropped by the supervision of a token pass - the
+#      SILENT SUCCESSOR after the third unanswered pass, nobody else - which is C11's rule group (too_many_retries,
+#      removed_too_early, removal_passes_to_next) in the fdl domain.  Seeded C02-1 (third failed pass removes the PREDECESSOR)
+#      re-converges inside the generous bus-level bound and was reported only by ./check C11 until this link.
+PROPS["C02"]["domains"] = list(PROPS["C02"]["domains"]) + ["fdl"]
+PROPS["C02"]["also"] = list(PROPS["C02"].get("also", [])) + [("C11", "too_many_retries"), ("C11", "removed_too_early"), ("C11", "removal_passes_to_next")]
